@@ -43,6 +43,16 @@ class Divergence(HarnessError):
 	pass
 
 
+def file_index_of(ctl, args, kwargs, fallback):
+	"""Which input file a submitted task is about (looked up among its arguments) - so the harness does not assume that tasks are
+	submitted in file order."""
+	from gambit.seq import SequenceFile
+	for x in list(args) + list(kwargs.values()):
+		if isinstance(x, SequenceFile) and str(x.path) in ctl.index:
+			return ctl.index[str(x.path)]
+	return fallback
+
+
 class Ctl:
 	def __init__(self, n, files, mp):
 		ctx = multiprocessing.get_context('fork') if mp else threading
@@ -55,6 +65,7 @@ class Ctl:
 		self.tick = threading.Condition()
 		self.ticks = 0
 		self.futs = []
+		self.submitted = []
 		self.fut_done = [threading.Event() for _ in range(n)]
 		self.error = None
 		self.shutdown_called = False
@@ -85,7 +96,10 @@ def recording(base):
 		def submit(self, fn, *a, **kw):
 			ctl = _CTL
 			fut = super().submit(fn, *a, **kw)
-			i = len(ctl.futs)
+			i = file_index_of(ctl, a, kw, len(ctl.futs))
+			with ctl.tick:
+				ctl.submitted.append(i)      # submission order as observed (an implementation may submit in any order)
+				ctl.tick.notify_all()
 			ctl.futs.append(fut)
 			fut.add_done_callback(lambda f, i=i: ctl.fut_done[i].set())
 			if len(ctl.futs) == ctl.n:
@@ -109,8 +123,11 @@ class ManualExecutor(Executor):
 	def submit(self, fn, *a, **kw):
 		ctl = _CTL
 		fut = Future()
-		i = len(ctl.futs)
+		i = file_index_of(ctl, a, kw, len(ctl.futs))
 		self.tasks.append((fn, a, kw, fut))
+		with ctl.tick:
+			ctl.submitted.append(i)
+			ctl.tick.notify_all()
 		ctl.futs.append(fut)
 		fut.add_done_callback(lambda f, i=i: ctl.fut_done[i].set())
 		if len(ctl.futs) == ctl.n:
@@ -166,7 +183,12 @@ def controller(ctl, order, p, manual):
 		if p == 0:
 			ctl.pre_done.set()
 		done = 0
-		for i in order:
+		for pos in order:
+			# the model speaks about the pos-th SUBMITTED task; translate to the file it is about
+			with ctl.tick:
+				if not ctl.tick.wait_for(lambda: len(ctl.submitted) > pos, TIMEOUT):
+					raise Divergence(f'task at submission position {pos} was never submitted')
+			i = ctl.submitted[pos]
 			if manual is None:
 				# the model says task i is running now: validate against the implementation
 				if not ctl.at_gate[i].wait(TIMEOUT):
@@ -174,13 +196,7 @@ def controller(ctl, order, p, manual):
 				ctl.gates[i].release()
 			else:
 				# wait until submitted
-				import time
-				t0 = time.time()
-				while len(manual.tasks) <= i:
-					if time.time() - t0 > TIMEOUT:
-						raise Divergence(f'task {i} never submitted to the caller-supplied executor')
-					time.sleep(0.0005)
-				manual.complete(i)
+				manual.complete(pos)
 			if not ctl.fut_done[i].wait(TIMEOUT):
 				raise Divergence(f'future of task {i} not done after its gate was released')
 			done += 1
